@@ -17,7 +17,7 @@ META = dict(
     lemmas=['L1 arccos facts: range, monotonicity, exact values and two-sided Lipschitz bounds at 0 and +-1/2 (symx.opaque axioms)', 'L5 numpy.lcm returns a positive common multiple (executed concretely)'],
     cuts=[], assumptions=['dead-zone assumption on tilts (see C01)'], trusted=[],
 )
-BIND = ['atomman.core.Box', 'atomman.tools.miller', 'atomman.tools.vect_angle']
+BIND = ['atomman.core.Box', 'atomman.tools.miller', 'atomman.tools.vect_angle', 'atomman.tools.crystalsystem']
 
 
 def idx(shape, tag='i'):
@@ -245,10 +245,19 @@ def h_reduce(maxi):
             n4 += 1
             g = math.gcd(*[abs(int(x)) for x in v])
             bad4 += [int(x) for x in r] != [int(x) // g for x in v]
+        # 3 <-> 4 index vectors for INTEGER-typed input (the 4-index form has thirds): formula and round trip
+        badv = 0
+        for v in itertools.product(range(-2, 3), repeat=3):
+            vi = np.array(v, dtype=int)
+            v4 = miller.vector3to4(vi)
+            want = [(2 * v[0] - v[1]) / 3, (2 * v[1] - v[0]) / 3, -(v[0] + v[1]) / 3, v[2]]
+            badv += not (np.allclose(np.asarray(v4, float), want, atol=1e-12) and np.allclose(np.asarray(miller.vector4to3(v4), float), v, atol=1e-12))
+        blk34 = miller.vector3to4(np.array([[1, 0, 0], [0, 1, 0], [1, 1, 1]], dtype=int))
         ai = miller.all_indices(2); air = miller.all_indices(2, reduce=True)
         return [(f'reduce_indices: coprime positive-multiple for all {n} non-zero triples with |index|<={maxi}', bad == 0),
                 ('reduce_indices on arrays with two leading dimensions, shapes (2,2,3) and (3,2,3), equals the row-by-row result', bool(lead_ok)),
                 (f'reduce_indices on all {n4} Miller-Bravais rows [u v -(u+v) w] with |u|,|v|,|w|<={maxi}: divided by the gcd of all four indices', bad4 == 0),
+                ('vector3to4 / vector4to3 on integer-typed vectors with |index|<=2: thirds are kept, round trip exact', badv == 0 and np.allclose(np.asarray(blk34, float), [[2 / 3, -1 / 3, -1 / 3, 0], [-1 / 3, 2 / 3, -1 / 3, 0], [1 / 3, 1 / 3, -2 / 3, 1]])),
                 ('reduce_indices on a single vector and on 4-index rows', list(one) == [1, -2, 3] and four.tolist() == [[1, 1, -2, 0], [1, 0, -1, 2]]),
                 ('all_indices(2) lists every non-zero triple once; reduce=True keeps the coprime ones', len(ai) == 124 and len(set(map(tuple, ai.tolist()))) == 124 and all(math.gcd(*[abs(x) for x in r]) == 1 for r in air.tolist()) and len(set(map(tuple, air.tolist()))) == len(air))]
     return fn
@@ -307,6 +316,10 @@ def h_family(fam):
             box = Box.triclinic(a, b, c, al, be, ga)
         got = box.identifyfamily()
         ob = [(f'cell built by Box.{ "trigonal" if fam == "rhombohedral" else fam} is identified as {fam}', got == fam)]
+        # the stand-alone functions of atomman.tools.crystalsystem give the same answer
+        from atomman.tools import crystalsystem as cs_
+        ob.append((f'tools.crystalsystem.identifyfamily agrees ({fam})', cs_.identifyfamily(box) == fam))
+        ob.append((f'tools.crystalsystem.is{fam} is True', bool(getattr(cs_, 'is' + fam)(box))))
         return ob
     return fn
 
